@@ -141,7 +141,78 @@ def run(ck):
             if not b.is_cleanup(c.bb) and T.path_has(b, c.args[0], ".synthetic_events") and any(b.dominates(x.bb, c.bb) or x.bb in b.reachable([0]) and c.bb in b.reachable([x.to]) for x in bs):
                 tr_, fa_ = T.bool_split(b, c.bb)
                 nonempty += fa_
+        def accumulated_flag(i):
+            """the zero store is guarded by a bool that *accumulates* `before_sleep(..).is_some()` over the sources:
+            initialised false, then only ever `flag |= is_some` / `flag = true` on a Some edge. Returns None (not that
+            idiom), "" (sound) or what is wrong (a plain `flag = is_some` forgets an earlier source's event)"""
+            for sw in T.switches_on_expr(b, lambda e: e[0] == "place"):
+                tr = T.edges_of_value(b, sw, True)
+                if not tr or not T.reachable_only_via(b, i, tr):
+                    continue
+                e = b.expr(b.blocks[sw]["term"]["on"], at=sw)
+                neg = False
+                while e[0] == "not":
+                    neg = not neg
+                    e = e[1]
+                if neg or e[0] != "place":
+                    continue
+                # the flag itself, or the payload of the `Ok(flag)` a helper returned (`run_before_sleep()?`)
+                cands = set()
+                if not e[2]["p"]:
+                    cands.add(e[2]["l"])
+                for r_, p_ in b.resolve(e[2]):
+                    if r_[0] == "rv":
+                        st_ = b.blocks[r_[1]]["st"][r_[2]]
+                        if st_["s"] == "assign" and not st_["pl"]["p"]:
+                            cands.add(st_["pl"]["l"])
+                    if r_[0] == "agg":
+                        rv_ = b.agg_at(r_[1], r_[2])
+                        if rv_.get("variant") in ("Ok", "Some", "Continue") and rv_.get("fields"):
+                            cands |= set(T.copy_chain_locals(b, rv_["fields"][0]))
+                            pl_ = op_place(rv_["fields"][0])
+                            if pl_ is not None and not pl_["p"]:
+                                cands.add(pl_["l"])
+                if not cands:
+                    # a flag assigned from calls only (`flag = x.is_some()`): the bool local with the same origins
+                    roots = set(b.resolve(e[2]))
+                    for l_, ds_ in b.defs().items():
+                        if len(ds_) >= 2 and f.types[b.local_ty(l_)]["s"] == "bool" and set(b.resolve({"c": {"l": l_, "p": [], "t": b.local_ty(l_)}})) == roots:
+                            cands.add(l_)
+                cands = [l for l in cands if f.types[b.local_ty(l)]["s"] == "bool" and len(b.defs().get(l, [])) >= 2]
+                if not cands:
+                    continue
+                F = cands[0]
+                defs = b.defs().get(F, [])
+                for d in defs:
+                    if d[0] != "assign":
+                        return "the flag is assigned the result of a call"
+                    rv = d[3]["rv"]
+                    if rv["r"] == "use" and rv["o"].get("k") is not None:
+                        if rv["o"]["k"].get("v") in (0, False):
+                            continue
+                        if some and T.reachable_only_via(b, d[1], some):
+                            continue
+                        return "the flag is set to true on a path on which before_sleep did not return an event"
+                    if rv["r"] == "bin" and rv["op"] == "BitOr":
+                        ops = [rv["a"], rv["b"]]
+                        selfs = [o for o in ops if F in T.copy_chain_locals(b, o) or (op_place(o) or {}).get("l") == F]
+                        others = [o for o in ops if o not in selfs]
+                        if len(selfs) == 1 and len(others) == 1:
+                            oc = [c for c in T.calls(b, name=("is_some",)) if T.resolves_to_call(b, others[0], [c.bb]) and (T.tainted_by_call(b, c.args[0], [x.bb for x in bs]) or T.resolves_to_call(b, c.args[0], [x.bb for x in bs]))]
+                            if oc:
+                                continue
+                        return "the flag is or-ed with something else than before_sleep(..).is_some()"
+                    return "the flag is overwritten (`flag = ..` instead of `flag |= ..`) inside the before_sleep loop: the synthetic event of an earlier source is forgotten when a later source returns none, so the wait is not forced non-blocking although an event is queued"
+                return ""
+            return None
+
         for i in zero_stores:
+            af = None
+            if not ((bool(some) and T.reachable_only_via(b, i, some)) or (bool(nonempty) and T.reachable_only_via(b, i, nonempty))):
+                af = accumulated_flag(i)
+                if af is not None:
+                    ck.verdict(af == "", "2", "T4-guarded-by", b, "zero-timeout-only-if-synthetic-event", "the timeout is forced to zero on a flag that accumulates `before_sleep(..).is_some()` over all lifecycle sources (initialised false, only ever or-ed)", "the zero timeout hangs on a flag that does not accumulate the sources' answers: %s" % af, site=b.where(i))
+                    continue
             ck.verdict((bool(some) and T.reachable_only_via(b, i, some)) or (bool(nonempty) and T.reachable_only_via(b, i, nonempty)), "2", "T4-guarded-by", b, "zero-timeout-only-if-synthetic-event", "the timeout is forced to zero only on the edge where before_sleep returned an event", "dispatch forces a zero timeout although no synthetic event was produced: the loop spins instead of sleeping", site=b.where(i))
     # any other store into the timeout must derive from the timeout itself (EINTR adjustment)
     for i, j, st in b.statements():
